@@ -303,6 +303,11 @@ def execute(case):
         got = {}
         for e in r.errors:
             k = (e.level, e.code)
+            if k == ('isa', '024') and (e.msg or '').startswith(('Mandatory ', 'Segment ', 'Loop ')):
+                # a map-walker finding about a segment outside any set (the skeleton's body is not map conformant; an interchange
+                # without a group misses its mandatory GS loop): content, not one of the reader's envelope checks
+                out.probe('full-walker-024')
+                continue
             if k in E.TRACKED:
                 got[k] = got.get(k, 0) + 1
         want = rc.multiset()
